@@ -48,9 +48,11 @@ def parse_residue(proto, res):
     out = set()
     for r in res or []:
         f = r["key"].split("_")
-        conn = int(f[0].split(".")[-1])
-        k = int(f[4])
-        out.add((conn, k, bool(r["isreq"]), r["pid"]))
+        try:
+            k = int(f[4])
+        except (IndexError, ValueError):
+            k = -1
+        out.add((r.get("conn", -1), k, bool(r["isreq"]), r["pid"]))
     return out
 
 
@@ -108,7 +110,7 @@ def keyed_histories(rng, proto, quick):
     for _ in range(30 if quick else 300):
         h = []
         seqs = []
-        for c in (1, 2):
+        for c in rng.choice([(2, 3), (2, 4), (1, 2)]):
             n = rng.randint(1, 4)
             keys = [2 * i + 1 for i in range(n)]
             order = list(range(n))
